@@ -270,6 +270,15 @@ func (c *CreateAndBroadcastOpeningTransaction) Execute(services *SwapServices, s
 		return Event_ActionSucceeded
 	}
 
+	// This action is run again when the node restarts in this state. If an
+	// earlier attempt has failed (HandleError recorded it) the node stopped
+	// before the resulting cancel was stored: finish that cancel. The wallet
+	// can have broadcast the transaction and failed afterwards, a second
+	// attempt would fund the swap a second time.
+	if swap.LastErrString != "" {
+		return Event_ActionFailed
+	}
+
 	// Generate Preimage
 	preimage, err := lightning.GetPreimage()
 	if err != nil {
